@@ -215,7 +215,7 @@ func ruleC07(c *Ctx) {
 		"protocol/vm.opCheckPredicate":            "child VM limit (charged to the parent first)",
 	})
 	ac := c.Func(pVM, "(*virtualMachine).applyCost")
-	c.RequireFailureWithFacts("facts", ac, "ErrRunLimitExceeded", "param:n > field:protocol/vm.virtualMachine.runLimit | field:protocol/vm.virtualMachine.runLimit < param:n")
+	c.RequireFailureWithFacts("facts", ac, "ErrRunLimitExceeded", "param#1 > field:protocol/vm.virtualMachine.runLimit | field:protocol/vm.virtualMachine.runLimit < param#1")
 	pop := c.Func(pVM, "(*virtualMachine).pop")
 	if pop != nil {
 		ok := false
@@ -358,7 +358,7 @@ func ruleC07(c *Ctx) {
 		c.RequireErrProp("errprop", cv, false, "(*protocol/validation.GasState).updateUsage", pVM+".Verify")
 	}
 	uu := c.ScopeFunc(c.Func(pVal, "(*GasState).updateUsage"))
-	c.RequireGuard("guard", uu, "negative remaining gas rejected", isParam("gasLeft"))
+	c.RequireGuard("guard", uu, "negative remaining gas rejected", paramN(1))
 	vf := c.Func(pVM, "Verify")
 	if vf != nil {
 		ok := true
@@ -366,7 +366,7 @@ func ruleC07(c *Ctx) {
 		for _, ri := range returnsOf(vf) {
 			n++
 			v := ri.Ret.Results[0]
-			if !mentions(v, readsField("protocol/vm.virtualMachine", "runLimit"), 4, nil) && !mentions(v, isParam("gasLimit"), 3, nil) {
+			if !mentions(v, readsField("protocol/vm.virtualMachine", "runLimit"), 4, nil) && !mentions(v, paramN(1), 3, nil) {
 				ok = false
 			}
 		}
@@ -623,7 +623,7 @@ func ruleC09(c *Ctx) {
 		for _, b := range po.Blocks {
 			for _, in := range b.Instrs {
 				sl, ok := in.(*ssa.Slice)
-				if !ok || !isParam("prog")(sl.X) || sl.High == nil {
+				if !ok || !paramN(0)(sl.X) || sl.High == nil {
 					continue
 				}
 				n++
@@ -639,7 +639,7 @@ func ruleC09(c *Ctx) {
 				okAdd := have["call:math/checked.AddUint32#1 = true"]
 				if !(okb && okAdd && hiIsEnd) {
 					// header reads prog[pc+1 : pc+3] are guarded by the short-program test instead
-					if !hiIsEnd && (factsAtHas(sl, "param:pc <= ") || factsAtHas(sl, "call:builtin:len >= ")) {
+					if !hiIsEnd && (factsAtHas(sl, "param#1 <= ") || factsAtHas(sl, "call:builtin:len >= ")) {
 						continue
 					}
 					bad = "prog[…:…] at " + c.Pos(sl.Pos()) + " not dominated by the bounds test (facts: " + factList(have) + ")"
@@ -648,7 +648,7 @@ func ruleC09(c *Ctx) {
 		}
 		c.Require("idxguard", fname(po)+": every slice of the program is dominated by its bound test", bad == "" && n >= 5, "%d slice expression(s) %s", n, bad)
 		// Len ≥ 1 on success: the only store/phi of Len starts from constant 1 and only grows through + / checked add
-		c.RequireFailureWithFacts("facts", po, "ErrShortProgram", "param:pc >= call:builtin:len | call:builtin:len <= param:pc | param:pc >= ? | ? <= param:pc")
+		c.RequireFailureWithFacts("facts", po, "ErrShortProgram", "param#1 >= call:builtin:len | call:builtin:len <= param#1 | param#1 >= ? | ? <= param#1")
 		minLen := int64(1 << 40)
 		for _, w := range c.writersOf("protocol/vm.Instruction", "Len", nil) {
 			if w.Fn == po {
